@@ -324,12 +324,12 @@ def Expr.strLang (i : Bool) (e : Expr) (s : Str) : Prop := ∃ w, e.lang w ∧ a
 
 /-! ### the printed pattern of an expression -/
 
-/-- the settings under which the printed text is the plain regex: no colours, not verbose, no `\u{..}` escapes -/
-def cfgPlain (cap : Bool) : Config := { cap := cap }
+/-- the settings under which the printed text is the plain regex: no colours, not verbose, no surrogate pairs (with or without `\u{..}` escapes) -/
+def cfgPlain (cap esc : Bool) : Config := { cap := cap, esc := esc }
 
 /-- a sub-expression in a context of precedence `outer`: grouped when weaker (mirrors `fmtSub`) -/
-def subOf (cap : Bool) (outer : Nat) (e : Expr) (its : List Pat) (bd : Pat) : List Pat :=
-  if e.precedence < outer && !e.isSingleCodepoint (cfgPlain cap) then [Pat.grp cap bd] else its
+def subOf (cap esc : Bool) (outer : Nat) (e : Expr) (its : List Pat) (bd : Pat) : List Pat :=
+  if e.precedence < outer && !e.isSingleCodepoint (cfgPlain cap esc) then [Pat.grp cap bd] else its
 
 def optOf : List Pat → List Pat
   | [p] => [Pat.rep p 0 (some 1) true]
@@ -337,22 +337,22 @@ def optOf : List Pat → List Pat
 
 mutual
 /-- (the items the text of `e` contributes to the enclosing concatenation, the body of a group around `e`) -/
-def Expr.both (cap : Bool) : Expr → List Pat × Pat
+def Expr.both (cap esc : Bool) : Expr → List Pat × Pat
   | .lit c => let its := (atomsOf c).map atomPat; (its, catList its)
   | .cls cs => let its := [Pat.set (classItems cs) false]; (its, catList its)
   | .cat a b =>
-    let ra := Expr.both cap a
-    let rb := Expr.both cap b
-    let its := subOf cap 2 a ra.1 ra.2 ++ subOf cap 2 b rb.1 rb.2
+    let ra := Expr.both cap esc a
+    let rb := Expr.both cap esc b
+    let its := subOf cap esc 2 a ra.1 ra.2 ++ subOf cap esc 2 b rb.1 rb.2
     (its, catList its)
   | .rep e _ =>
-    let r := Expr.both cap e
-    let its := optOf (subOf cap 3 e r.1 r.2)
+    let r := Expr.both cap esc e
+    let its := optOf (subOf cap esc 3 e r.1 r.2)
     (its, catList its)
-  | .alt os => ([], altList (Expr.bothL cap os))
-def Expr.bothL (cap : Bool) : List Expr → List Pat
+  | .alt os => ([], altList (Expr.bothL cap esc os))
+def Expr.bothL (cap esc : Bool) : List Expr → List Pat
   | [] => []
-  | o :: os => catList (Expr.both cap o).1 :: Expr.bothL cap os
+  | o :: os => catList (Expr.both cap esc o).1 :: Expr.bothL cap esc os
 end
 
 def Expr.isAlt : Expr → Bool
@@ -544,11 +544,55 @@ theorem single_literal (c : Cluster) (h : PlainBs c) (hlen : (flat c).length = 1
         omega
       | Atom.cls k n :: r, _, hl => simp [untok] at hl
 
+theorem escapeChar_len (x : Nat) : 1 ≤ (Expr.escapeChar x false).length := by
+  unfold Expr.escapeChar
+  split
+  · simp
+  · simp
+
+theorem escaped_len_one : ∀ (s : Str), (s.flatMap fun c => Expr.escapeChar c false).length = 1 → s.length = 1
+  | [], h => by simp at h
+  | x :: r, h => by
+    have h1 := escapeChar_len x
+    simp only [List.flatMap_cons, List.length_append] at h
+    have h0 : (r.flatMap fun c => Expr.escapeChar c false).length = 0 := by omega
+    cases r with
+    | nil => rfl
+    | cons y t =>
+      have := escapeChar_len y
+      simp only [List.flatMap_cons, List.length_append] at h0
+      omega
+
+theorem charCount_esc (c : Cluster) (h : PlainBs c) :
+    Expr.clusterCharCount c true = ((flat c).flatMap fun x => Expr.escapeChar x false).length := by
+  induction c with
+  | nil => rfl
+  | cons g gs ih =>
+    obtain ⟨as, _, _, rfl⟩ := h g List.mem_cons_self
+    have := ih (fun x hx => h x (List.mem_cons_of_mem _ hx))
+    simp only [Expr.clusterCharCount, List.map_cons, List.sum_cons, flat, List.flatMap_cons, List.flatMap_append,
+      List.length_append, value_ofStr] at this ⊢
+    rw [this]
+    simp [Expr.graphemeCharCount, Grapheme.ofStr, Grapheme.chars]
+
+/-- a literal that counts as a single code point under the settings `cfgPlain cap esc` -/
+theorem single_literal_cfg (cap esc : Bool) (c : Cluster) (h : PlainBs c)
+    (hsc : (Expr.lit c).isSingleCodepoint (cfgPlain cap esc) = true) :
+    ∃ x, c = [Grapheme.ofStr [x]] ∧ atomsOf c = [Atom.chr x] ∧ Scalar x := by
+  simp only [Expr.isSingleCodepoint, cfgPlain, Bool.and_eq_true, beq_iff_eq] at hsc
+  apply single_literal c h
+  cases esc with
+  | false => rw [← Expr.charCount_flat]; exact hsc.1
+  | true =>
+    have := hsc.1
+    rw [charCount_esc c h] at this
+    exact escaped_len_one _ this
+
 /-- a single-code-point expression contributes exactly one item, and grouping is transparent -/
-theorem denL_subOf (i : Bool) (cap : Bool) (outer : Nat) (e : Expr) (its : List Pat) (bd : Pat) (s : Str)
+theorem denL_subOf (i : Bool) (cap esc : Bool) (outer : Nat) (e : Expr) (its : List Pat) (bd : Pat) (s : Str)
     (h1 : e.isAlt = false → (denL i its s ↔ e.strLang i s)) (h2 : bd.den i s ↔ e.strLang i s)
     (halt : e.isAlt = true → outer ≥ 2) :
-    denL i (subOf cap outer e its bd) s ↔ e.strLang i s := by
+    denL i (subOf cap esc outer e its bd) s ↔ e.strLang i s := by
   unfold subOf
   split
   · simp only [denL, Pat.den]
@@ -567,8 +611,8 @@ theorem denL_subOf (i : Bool) (cap : Bool) (outer : Nat) (e : Expr) (its : List 
 
 mutual
 /-- **the printed pattern denotes the string-level language** -/
-theorem Expr.both_den (i : Bool) (cap : Bool) : ∀ (e : Expr), e.WF → ∀ s, (∀ c ∈ s, Scalar c) →
-    (e.isAlt = false → (denL i (e.both cap).1 s ↔ e.strLang i s)) ∧ ((e.both cap).2.den i s ↔ e.strLang i s)
+theorem Expr.both_den (i : Bool) (cap esc : Bool) : ∀ (e : Expr), e.WF → ∀ s, (∀ c ∈ s, Scalar c) →
+    (e.isAlt = false → (denL i (e.both cap esc).1 s ↔ e.strLang i s)) ∧ ((e.both cap esc).2.den i s ↔ e.strLang i s)
   | .lit c, _, s, _ => by
     simp [Expr.both, den_catList, denL_atoms, Expr.strLang_lit]
   | .cls cs, h, s, hs => by
@@ -585,30 +629,30 @@ theorem Expr.both_den (i : Bool) (cap : Bool) : ∀ (e : Expr), e.WF → ∀ s, 
     simp only [Expr.both, den_catList]
     exact ⟨fun _ => key, key⟩
   | .cat a b, h, s, hs => by
-    have key : denL i (subOf cap 2 a (a.both cap).1 (a.both cap).2 ++ subOf cap 2 b (b.both cap).1 (b.both cap).2) s ↔
+    have key : denL i (subOf cap esc 2 a (a.both cap esc).1 (a.both cap esc).2 ++ subOf cap esc 2 b (b.both cap esc).1 (b.both cap esc).2) s ↔
         (Expr.cat a b).strLang i s := by
       rw [denL_append, Expr.strLang_cat]
       constructor
       · rintro ⟨u, v, rfl, h1, h2⟩
         have hu : ∀ c ∈ u, Scalar c := fun c hc => hs c (by simp [hc])
         have hv : ∀ c ∈ v, Scalar c := fun c hc => hs c (by simp [hc])
-        have ia := Expr.both_den i cap a h.1 u hu
-        have ib := Expr.both_den i cap b h.2 v hv
-        exact ⟨u, v, rfl, (denL_subOf i cap 2 a _ _ u ia.1 ia.2 (fun _ => Nat.le_refl _)).mp h1,
-          (denL_subOf i cap 2 b _ _ v ib.1 ib.2 (fun _ => Nat.le_refl _)).mp h2⟩
+        have ia := Expr.both_den i cap esc a h.1 u hu
+        have ib := Expr.both_den i cap esc b h.2 v hv
+        exact ⟨u, v, rfl, (denL_subOf i cap esc 2 a _ _ u ia.1 ia.2 (fun _ => Nat.le_refl _)).mp h1,
+          (denL_subOf i cap esc 2 b _ _ v ib.1 ib.2 (fun _ => Nat.le_refl _)).mp h2⟩
       · rintro ⟨u, v, rfl, h1, h2⟩
         have hu : ∀ c ∈ u, Scalar c := fun c hc => hs c (by simp [hc])
         have hv : ∀ c ∈ v, Scalar c := fun c hc => hs c (by simp [hc])
-        have ia := Expr.both_den i cap a h.1 u hu
-        have ib := Expr.both_den i cap b h.2 v hv
-        exact ⟨u, v, rfl, (denL_subOf i cap 2 a _ _ u ia.1 ia.2 (fun _ => Nat.le_refl _)).mpr h1,
-          (denL_subOf i cap 2 b _ _ v ib.1 ib.2 (fun _ => Nat.le_refl _)).mpr h2⟩
+        have ia := Expr.both_den i cap esc a h.1 u hu
+        have ib := Expr.both_den i cap esc b h.2 v hv
+        exact ⟨u, v, rfl, (denL_subOf i cap esc 2 a _ _ u ia.1 ia.2 (fun _ => Nat.le_refl _)).mpr h1,
+          (denL_subOf i cap esc 2 b _ _ v ib.1 ib.2 (fun _ => Nat.le_refl _)).mpr h2⟩
     simp only [Expr.both, den_catList]
     exact ⟨fun _ => key, key⟩
   | .rep e q, h, s, hs => by
     obtain ⟨rfl, hnr, hwf⟩ := h
     -- the operand contributes exactly one item
-    have hsingle : ∃ p, subOf cap 3 e (e.both cap).1 (e.both cap).2 = [p] := by
+    have hsingle : ∃ p, subOf cap esc 3 e (e.both cap esc).1 (e.both cap esc).2 = [p] := by
       unfold subOf
       split
       · exact ⟨_, rfl⟩
@@ -619,20 +663,18 @@ theorem Expr.both_den (i : Bool) (cap : Bool) : ∀ (e : Expr), e.WF → ∀ s, 
         | cat a b => simp [Expr.precedence, Expr.isSingleCodepoint] at hc
         | rep e q => simp [Expr.isRep] at hnr
         | lit c =>
-          have hsc : (Expr.lit c).isSingleCodepoint (cfgPlain cap) = true := by
-            cases hh : (Expr.lit c).isSingleCodepoint (cfgPlain cap) with
+          have hsc : (Expr.lit c).isSingleCodepoint (cfgPlain cap esc) = true := by
+            cases hh : (Expr.lit c).isSingleCodepoint (cfgPlain cap esc) with
             | true => rfl
             | false => simp [Expr.precedence, hh] at hc
-          simp only [Expr.isSingleCodepoint, cfgPlain, Bool.and_eq_true, beq_iff_eq] at hsc
-          have hlen : (flat c).length = 1 := by rw [← Expr.charCount_flat]; exact hsc.1
-          obtain ⟨x, _, hat, _⟩ := single_literal c hwf hlen
+          obtain ⟨x, _, hat, _⟩ := single_literal_cfg cap esc c hwf hsc
           exact ⟨Pat.chr x, by simp [Expr.both, hat, atomPat]⟩
     obtain ⟨p, hp⟩ := hsingle
-    have key : denL i (optOf (subOf cap 3 e (e.both cap).1 (e.both cap).2)) s ↔ (Expr.rep e .question).strLang i s := by
+    have key : denL i (optOf (subOf cap esc 3 e (e.both cap esc).1 (e.both cap esc).2)) s ↔ (Expr.rep e .question).strLang i s := by
       rw [hp, Expr.strLang_opt]
       simp only [optOf, denL, Pat.den]
-      have ie := Expr.both_den i cap e hwf s hs
-      have hsub := denL_subOf i cap 3 e _ _ s ie.1 ie.2 (fun _ => by omega)
+      have ie := Expr.both_den i cap esc e hwf s hs
+      have hsub := denL_subOf i cap esc 3 e _ _ s ie.1 ie.2 (fun _ => by omega)
       rw [hp] at hsub
       simp only [denL] at hsub
       constructor
@@ -648,18 +690,18 @@ theorem Expr.both_den (i : Bool) (cap : Bool) : ∀ (e : Expr), e.WF → ∀ s, 
   | .alt os, h, s, hs => by
     refine ⟨fun hc => by simp [Expr.isAlt] at hc, ?_⟩
     simp only [Expr.both]
-    have hne : Expr.bothL cap os ≠ [] := by
+    have hne : Expr.bothL cap esc os ≠ [] := by
       cases os with
       | nil => exact absurd rfl h.1
       | cons o os => simp [Expr.bothL]
     rw [den_altList i _ hne, Expr.strLang_alt]
-    exact Expr.bothL_den i cap os h.2 s hs
-theorem Expr.bothL_den (i : Bool) (cap : Bool) : ∀ (os : List Expr), Expr.WFL os → ∀ s, (∀ c ∈ s, Scalar c) →
-    ((∃ p ∈ Expr.bothL cap os, p.den i s) ↔ ∃ o ∈ os, o.strLang i s)
+    exact Expr.bothL_den i cap esc os h.2 s hs
+theorem Expr.bothL_den (i : Bool) (cap esc : Bool) : ∀ (os : List Expr), Expr.WFL os → ∀ s, (∀ c ∈ s, Scalar c) →
+    ((∃ p ∈ Expr.bothL cap esc os, p.den i s) ↔ ∃ o ∈ os, o.strLang i s)
   | [], _, s, _ => by simp [Expr.bothL]
   | o :: os, h, s, hs => by
-    have io := Expr.both_den i cap o h.2.1 s hs
-    have ios := Expr.bothL_den i cap os h.2.2 s hs
+    have io := Expr.both_den i cap esc o h.2.1 s hs
+    have ios := Expr.bothL_den i cap esc os h.2.2 s hs
     simp only [Expr.bothL, List.mem_cons, exists_eq_or_imp, den_catList]
     rw [io.1 h.1, ios]
 end
@@ -684,8 +726,8 @@ theorem frag_altList (ps : List Pat) (h : ∀ p ∈ ps, p.Frag) : (altList ps).F
     | cons q qs =>
       exact ⟨h p List.mem_cons_self, ih (fun x hx => h x (List.mem_cons_of_mem _ hx))⟩
 
-theorem frag_subOf (cap : Bool) (outer : Nat) (e : Expr) (its : List Pat) (bd : Pat)
-    (h1 : ∀ p ∈ its, p.Frag) (h2 : bd.Frag) : ∀ p ∈ subOf cap outer e its bd, p.Frag := by
+theorem frag_subOf (cap esc : Bool) (outer : Nat) (e : Expr) (its : List Pat) (bd : Pat)
+    (h1 : ∀ p ∈ its, p.Frag) (h2 : bd.Frag) : ∀ p ∈ subOf cap esc outer e its bd, p.Frag := by
   unfold subOf
   split
   · intro p hp; simp only [List.mem_singleton] at hp; subst hp; exact h2
@@ -702,7 +744,7 @@ theorem frag_optOf (l : List Pat) (h : ∀ p ∈ l, p.Frag) : ∀ p ∈ optOf l,
   · exact h
 
 mutual
-theorem Expr.both_frag (cap : Bool) : ∀ (e : Expr), (∀ p ∈ (e.both cap).1, p.Frag) ∧ (e.both cap).2.Frag
+theorem Expr.both_frag (cap esc : Bool) : ∀ (e : Expr), (∀ p ∈ (e.both cap esc).1, p.Frag) ∧ (e.both cap esc).2.Frag
   | .lit c => by
     have h : ∀ p ∈ (atomsOf c).map atomPat, p.Frag := by
       intro p hp; obtain ⟨x, _, rfl⟩ := List.mem_map.mp hp; cases x <;> trivial
@@ -714,38 +756,38 @@ theorem Expr.both_frag (cap : Bool) : ∀ (e : Expr), (∀ p ∈ (e.both cap).1,
     simp only [Expr.both]
     exact ⟨h, frag_catList _ h⟩
   | .cat a b => by
-    have ia := Expr.both_frag cap a
-    have ib := Expr.both_frag cap b
-    have h : ∀ p ∈ subOf cap 2 a (a.both cap).1 (a.both cap).2 ++ subOf cap 2 b (b.both cap).1 (b.both cap).2, p.Frag := by
+    have ia := Expr.both_frag cap esc a
+    have ib := Expr.both_frag cap esc b
+    have h : ∀ p ∈ subOf cap esc 2 a (a.both cap esc).1 (a.both cap esc).2 ++ subOf cap esc 2 b (b.both cap esc).1 (b.both cap esc).2, p.Frag := by
       intro p hp
       simp only [List.mem_append] at hp
       rcases hp with hp | hp
-      · exact frag_subOf cap 2 a _ _ ia.1 ia.2 p hp
-      · exact frag_subOf cap 2 b _ _ ib.1 ib.2 p hp
+      · exact frag_subOf cap esc 2 a _ _ ia.1 ia.2 p hp
+      · exact frag_subOf cap esc 2 b _ _ ib.1 ib.2 p hp
     simp only [Expr.both]
     exact ⟨h, frag_catList _ h⟩
   | .rep e q => by
-    have ie := Expr.both_frag cap e
-    have h := frag_optOf _ (frag_subOf cap 3 e _ _ ie.1 ie.2)
+    have ie := Expr.both_frag cap esc e
+    have h := frag_optOf _ (frag_subOf cap esc 3 e _ _ ie.1 ie.2)
     simp only [Expr.both]
     exact ⟨h, frag_catList _ h⟩
   | .alt os => by
     simp only [Expr.both]
-    exact ⟨by simp, frag_altList _ (Expr.bothL_frag cap os)⟩
-theorem Expr.bothL_frag (cap : Bool) : ∀ (os : List Expr), ∀ p ∈ Expr.bothL cap os, p.Frag
+    exact ⟨by simp, frag_altList _ (Expr.bothL_frag cap esc os)⟩
+theorem Expr.bothL_frag (cap esc : Bool) : ∀ (os : List Expr), ∀ p ∈ Expr.bothL cap esc os, p.Frag
   | [] => by simp [Expr.bothL]
   | o :: os => by
     intro p hp
     simp only [Expr.bothL, List.mem_cons] at hp
     rcases hp with rfl | hp
-    · exact frag_catList _ (Expr.both_frag cap o).1
-    · exact Expr.bothL_frag cap os p hp
+    · exact frag_catList _ (Expr.both_frag cap esc o).1
+    · exact Expr.bothL_frag cap esc os p hp
 end
 
 /-- **string-level semantics of the printed pattern** `^ body $` accepts exactly the strings of the expression -/
-theorem anchored_body_accepts (i : Bool) (cap : Bool) (e : Expr) (hwf : e.WF) (s : Str) (hs : ∀ c ∈ s, Scalar c) :
-    fullMatch i (.cat .bol (.cat (e.both cap).2 .eol)) s = true ↔ e.strLang i s := by
-  rw [anchored_fullMatch i _ (Expr.both_frag cap e).2 s]
-  exact (Expr.both_den i cap e hwf s hs).2
+theorem anchored_body_accepts (i : Bool) (cap esc : Bool) (e : Expr) (hwf : e.WF) (s : Str) (hs : ∀ c ∈ s, Scalar c) :
+    fullMatch i (.cat .bol (.cat (e.both cap esc).2 .eol)) s = true ↔ e.strLang i s := by
+  rw [anchored_fullMatch i _ (Expr.both_frag cap esc e).2 s]
+  exact (Expr.both_den i cap esc e hwf s hs).2
 
 end Grexv
